@@ -186,6 +186,47 @@ class Gen:
         p1, p2 = r.choice(self.preds), r.choice(self.preds)
         return r.choice([["*", p1], ["?", p1], ["*", ["|", p1, p2]], ["^", ["*", p1]], ["*", p1]])
 
+    def more_path(self):
+        """one-or-more / zero-or-more paths and their combinations (walked forward or backward over cyclic data)"""
+        r = self.rng
+        p1, p2 = r.choice(self.preds), r.choice(self.preds)
+        return r.choice([["+", p1], ["+", p1], ["+", ["|", p1, p2]], ["*", p1], ["^", ["+", p1]], ["/", p1, ["+", p2]],
+                         ["+", ["^", p1]], ["/", ["+", p1], p2]])
+
+    def cyclepath(self):
+        """a path pattern one END of which is bound by another joined group (a plain pattern or VALUES over nodes of the
+        graph): pushed in by the lazy join in one operand order, joined afterwards in the other"""
+        r = self.rng
+        a, b, x = r.sample(self.vars, 3)
+        end = r.choice([a, b, b])       # mostly the object end
+        routed = {"k": "grp", "g": {"k": "group", "els": [{"k": "bgp", "ts": [[a, self.more_path(), b]]}]}}
+        if r.random() < 0.6:
+            tp = [end, r.choice(self.preds), x] if r.random() < 0.5 else [x, r.choice(self.preds), end]
+            binder = {"k": "grp", "g": {"k": "group", "els": [{"k": "bgp", "ts": [tp]}]}}
+        else:
+            binder = {"k": "values", "vs": [end], "rows": [[t] for t in r.sample(self.subs, min(2, len(self.subs)))]}
+        out = [binder, routed]
+        r.shuffle(out)
+        return out
+
+    def optvalues(self):
+        """`{ B(x) } { P OPTIONAL { VALUES ?x {…} [B'] } }`: a variable the left operand binds is bound again by a VALUES
+        block inside the OPTIONAL of the right operand, whose mandatory part does not mention it"""
+        r = self.rng
+        x, y, z = r.sample(self.vars, 3)
+        left = {"k": "grp", "g": {"k": "group", "els": [{"k": "bgp", "ts": [
+            [x, r.choice(self.preds), y] if r.random() < 0.5 else [y, r.choice(self.preds), x]]}]}}
+        pool = [t for t in self.subs + self.objs if t != "_n"]
+        opt = [{"k": "values", "vs": [x], "rows": [[t] for t in r.sample(pool, min(len(pool), r.choice([1, 2])))]}]
+        if r.random() < 0.3:
+            opt.append({"k": "bgp", "ts": [[z, r.choice(self.preds), self.var()]]})
+        right = {"k": "grp", "g": {"k": "group", "els": [
+            {"k": "bgp", "ts": [[r.choice([y, z]), r.choice(self.preds), z]]},
+            {"k": "optional", "g": {"k": "group", "els": opt}}]}}
+        out = [left, right]
+        r.shuffle(out)
+        return out
+
     def litpath(self):
         """a variable that takes a literal value (object of a plain pattern, VALUES, BIND) reaching the SUBJECT of a
         zero-length-capable path pattern; binder and path pattern are separate joined groups (both operand orders)"""
@@ -287,11 +328,14 @@ class Gen:
             n_extra = 1
         kinds = [("bgp", 2), ("grp", 3), ("union", 3), ("optional", 3), ("minus", 2), ("filter", 4), ("bind", 2),
                  ("values", 2), ("sub", 3), ("graph", 3 if self.ds else 0), ("multiroute", 3 if self.ok("path") else 0),
-                 ("litpath", 1 if self.ok("path") else 0), ("optjoin", 2 if len(self.vars) >= 3 else 0)]
+                 ("litpath", 1 if self.ok("path") else 0), ("optjoin", 2 if len(self.vars) >= 3 else 0),
+                 ("cyclepath", 5 if self.ok("path") and len(self.vars) >= 3 else 0),
+                 ("optvalues", 4 if self.ok("values") and self.ok("optional") and len(self.vars) >= 3 else 0)]
         kinds = [(k, w) for k, w in kinds if w and self.ok(k)]
         for _ in range(n_extra):
             k = r.choices([k for k, _ in kinds], [w for _, w in kinds])[0]
-            if depth <= 0 and k in ("grp", "union", "optional", "minus", "sub", "graph", "multiroute", "litpath", "optjoin"):
+            if depth <= 0 and k in ("grp", "union", "optional", "minus", "sub", "graph", "multiroute", "litpath", "optjoin",
+                                    "cyclepath", "optvalues"):
                 k = "filter" if self.ok("filter") else "bgp"
             if k == "bgp":
                 els.append(self.bgp(1, 2))
@@ -312,6 +356,10 @@ class Gen:
                 els += self.litpath()
             elif k == "optjoin":
                 els += self.optjoin()
+            elif k == "cyclepath":
+                els += self.cyclepath()
+            elif k == "optvalues":
+                els += self.optvalues()
             elif k == "filter":
                 els.append({"k": "filter", "e": self.expr()})
             elif k == "bind":
@@ -562,7 +610,7 @@ def gen_td_push(rng, g):
     inner = [b1]
     for _ in range(r.choice([1, 1, 2])):
         k = r.choice(["optional", "optionalf", "minus", "minus", "minusf", "minusf", "filter", "filter", "bind", "bindc",
-                      "values", "union", "sub", "sub"] + (["graph", "graphv"] if g.ds else []))
+                      "values", "union", "sub", "sub", "optvalues", "optvalues"] + (["graph", "graphv"] if g.ds else []))
         if k == "optional":
             inner.append({"k": "optional", "g": {"k": "group", "els": [{"k": "bgp", "ts": pat()}]}})
         elif k == "optionalf":
@@ -582,6 +630,11 @@ def gen_td_push(rng, g):
                 inner.append({"k": "filter", "e": ex()})
         elif k == "values":
             inner.append({"k": "values", "vs": [o], "rows": [[t] for t in r.sample(g.subs + [None], 2)]})
+        elif k == "optvalues":  # OPTIONAL { VALUES ?o {…} }: the pushed variable bound again, where `_vars` does not see it
+            og = [{"k": "values", "vs": [o], "rows": [[t] for t in r.sample(g.subs, min(len(g.subs), r.choice([1, 2])))]}]
+            if r.random() < 0.3:
+                og.append({"k": "bgp", "ts": [[z, pr(), u]]})
+            inner.append({"k": "optional", "g": {"k": "group", "els": og}})
         elif k == "sub":        # the pushed variable inside a sub-select, projected or not
             w = {"k": "group", "els": [{"k": "bgp", "ts": pat()}]}
             if r.random() < 0.3:
@@ -935,6 +988,18 @@ def _gen_case(rng, tier, i, stream):
             if q["proj"] is not None and not q["count"]:
                 q["proj"] = q["proj"] + ["?lx"]
             case["init"] = ["?lx", lit]
+        elif first_bgp is not None and first_bgp is q["where"]["els"][0] and g.ok("path") and rng.random() < 0.45:
+            # the outermost BGP holds a one-or-more / zero-or-more path pattern; initBindings give ONE of its ends, a
+            # node that lies on a cycle of the data when there is one
+            rows = [t for t in data if (t[3] == 0 or not ds)]
+            path = g.more_path()
+            onp = sorted({t[0] for t in rows if t[0] != "_n" and any(u[2] == t[0] for u in rows)}) \
+                or sorted({t[0] for t in rows if t[0] != "_n"}) or ["a"]
+            first_bgp["ts"].append(["?ps", path, "?po"])
+            end = rng.choice(["?po", "?po", "?ps"])
+            if q["proj"] is not None and not q["count"]:
+                q["proj"] = q["proj"] + [v for v in ("?ps", "?po") if v not in q["proj"]]
+            case["init"] = [end, rng.choice(onp)]
         elif cand:
             subs, preds, objs = data_terms(data)
             # VALUES cannot hold a blank node
@@ -1908,12 +1973,24 @@ def run_impl(case):
         extra = [("A", NS2), ("B", NS), ("rebindA", None), ("A", None), ("prepB", None), ("B", None)]
         rng.shuffle(extra)
         steps += extra[: rng.randint(2, 4)]
+        # always: the prefix re-bound by one of the routes users have, then the same text on the same Graph object
+        steps.insert(rng.randint(3, len(steps)), ("rebindA", None))
+        steps.append(("A", None))
         wants = {}      # the expanded query's answer depends on the graph and the namespace only
         for k, (who, ins) in enumerate(steps):
             if who == "rebindA":      # the same graph re-binds the prefix
                 bound["A"] = NS2 if bound["A"] == NS else NS
-                gA.bind("ux", URIRef(bound["A"]), override=True, replace=True)
-                stats["ns_rebind"] = stats.get("ns_rebind", 0) + 1
+                route = rng.choice(["bind", "manager", "other_graph", "store"])
+                if route == "bind":
+                    gA.bind("ux", URIRef(bound["A"]), override=True, replace=True)
+                elif route == "manager":
+                    gA.namespace_manager.bind("ux", URIRef(bound["A"]), override=True, replace=True)
+                elif route == "other_graph":     # another Graph object over the same store
+                    Graph(store=gA.store, identifier=URIRef(OTHER + "view")).bind("ux", URIRef(bound["A"]), override=True,
+                                                                                  replace=True)
+                else:
+                    gA.store.bind("ux", URIRef(bound["A"]), override=True)
+                stats["ns_rebind_" + route] = stats.get("ns_rebind_" + route, 0) + 1
                 continue
             if who == "prepB":        # a prepared query carries the namespaces it was prepared with
                 try:
